@@ -1,15 +1,17 @@
 (** Flat entry point of the worker-thread machine (C02 / C05).  Decoding glue only.
     205: n_threads, n_items, failing items, schedule -> the run of QueueFaults.fstep with one
          atomic action per item (the kernel call on the item), started from the full queue:
-         [all ended?; some thread blocked?; errs; dead; finished; items in the order their action ran] *)
+         [all ended?; some thread blocked?; errs; dead; finished; items in the order their action ran]
+    206: the same input and output for the lock-free protocol QueueNowait.nstep (get_nowait until queue.Empty:
+         taking an item, or finding the queue empty, is one step) *)
 From Coq Require Import ZArith List Bool.
-From PV Require Import Flat Sched QueueProofs QueueTrace QueueFaults.
+From PV Require Import Flat Sched QueueProofs QueueTrace QueueFaults QueueNowait.
 Import ListNotations.
 Open Scope Z_scope.
 
 Definition wr_nats (l : list nat) : list Z := wr_list (map Z.of_nat l).
 
-Definition m_threads (inp : list Z) : list Z :=
+Definition m_threads (nowait : bool) (inp : list Z) : list Z :=
   match inp with
   | nt :: ni :: r =>
     match rd_list r with
@@ -20,7 +22,7 @@ Definition m_threads (inp : list Z) : list Z :=
         let seqs := repeat [tt] n_items in
         let failing := map Z.to_nat fl in
         let fails := fun (i k : nat) => existsb (Nat.eqb i) failing in
-        let s := frun seqs fails (map Z.to_nat sched) (finit (seq 0 n_items) (Z.to_nat nt)) in
+        let s := (if nowait then nrun seqs fails else frun seqs fails) (map Z.to_nat sched) (finit (seq 0 n_items) (Z.to_nat nt)) in
         (if f_all_done s then 1 else 0) :: (if some_blocked (qs (ws s)) then 1 else 0)
           :: wr_nats (errs s) ++ wr_nats (dead s) ++ wr_nats (finished (qs (ws s)))
           ++ wr_nats (map fst (wtrace (ws s)))
@@ -32,4 +34,4 @@ Definition m_threads (inp : list Z) : list Z :=
   end.
 
 Definition run_c02 (id : Z) (inp : list Z) : option (list Z) :=
-  if id =? 205 then Some (m_threads inp) else None.
+  if id =? 205 then Some (m_threads false inp) else if id =? 206 then Some (m_threads true inp) else None.
